@@ -354,7 +354,8 @@ ModelSpecs ==
    [kind |-> "plain", seek |-> <<>>, end |-> <<>>, prefix |-> <<1>>, iseek |-> TRUE, iend |-> TRUE, desc |-> TRUE, off |-> 0]}
 SimSpec(o) ==
   IF Chance(o, 2, 6)
-  THEN [kind |-> "pages", key |-> At(KeySeq, R(o + 3)), off |-> R(o + 4) % 4, desc |-> R(o + 5) % 2 = 0, lim |-> 1 + (R(o + 6) % 3)]
+  THEN [kind |-> "pages", off |-> R(o + 4) % 3, desc |-> R(o + 5) % 2 = 0, lim |-> 1 + (R(o + 6) % 3),
+        key |-> IF KeysOf(map) # {} /\ ~Chance(o, 7, 4) THEN At(SortKeys(KeysOf(map)), R(o + 3)) ELSE At(KeySeq, R(o + 3))]
   ELSE [kind |-> IF Chance(o, 3, 3) THEN "hist" ELSE "plain",
         seek |-> IF Chance(o, 4, 3) THEN <<>> ELSE At(ProbeSeq, R(o + 5)),
         end |-> IF Chance(o, 6, 2) THEN <<>> ELSE At(ProbeSeq, R(o + 7)),
